@@ -535,13 +535,28 @@ class SyncRun:
         n = 0
         self.w.run(s)
         self.collect(s)
-        while self.w.conns[s].parked is not None:
-            self.w.step(s)
+        while self.w.conns[s].parked is not None or (
+                self.backend != 'dict' and self.inflight.get(s) is not None
+                and not self.idling.get(s) and not self.w.conns[s].done
+                and self._sleeping(s)):
+            if self.w.conns[s].parked is not None:
+                self.w.step(s)
+            else:
+                # waiting for a lock file held by a session that is parked elsewhere: its
+                # retry timer fires
+                self.w.loop.advance_to_next_timer(self.w.loop.time() + 1.0)
+                self.w.run(s)
             self.collect(s)
             n += 1
             if n > limit:
                 self.errors.append(f'{s}: more than {limit} checkpoints in one command')
                 break
+
+    def _sleeping(self, s: str) -> bool:
+        from .vloop import VLoop
+        loop = self.w.loop
+        return any(not h._cancelled and VLoop.owner_of(h) == s and h._when <= loop.time() + 1.0
+                   for h in loop._scheduled)
 
     def quiesce(self, budget: int = 200000) -> None:
         """FIFO until nothing is runnable (lock checkpoints are released as they
@@ -559,7 +574,15 @@ class SyncRun:
                     c.writer.release_drain()
                     released = True
             if not n and not released:
+                # maildir: IDLE polls once a second and a contended lock file is retried
+                # after a sleep - let (virtual) time pass, boundedly
+                if self.backend != 'dict':
+                    if not hasattr(self, '_q_deadline') or self._q_deadline is None:
+                        self._q_deadline = w.loop.time() + 2.5
+                    if w.loop.advance_to_next_timer(self._q_deadline):
+                        continue
                 break
+        self._q_deadline = None
         self.collect()
 
     def probe(self) -> None:
